@@ -481,10 +481,12 @@ Qed.
 Lemma dec_universal_prim f tag content rest v :
   0 <= tag -> tag <> 31 -> tag <> 16 -> tag <> 17 -> is_known_universal tag = true ->
   len_ok (zlen content) = true ->
-  dec_primitive tag false content = Ok v ->
+  dec_primitive_old tag false content = Ok v ->
   dec (S f) (enc_ident 0 false tag ++ enc_len (zlen content) ++ content ++ rest) = Ok (v, rest).
 Proof.
-  intros H0 H31 H16 H17 Hk Hl Hp. cbn [dec]. rewrite parse_hdr_enc by (assumption || lia).
+  intros H0 H31 H16 H17 Hk Hl Hp0.
+  assert (Hp : dec_primitive tag false content = Ok v) by (unfold dec_primitive; rewrite Hp0; reflexivity).
+  cbn [dec]. rewrite parse_hdr_enc by (assumption || lia).
   rewrite Hk. cbn [Z.eqb andb].
   destruct (tag =? 16) eqn:E1; [apply Z.eqb_eq in E1; lia|].
   destruct (tag =? 17) eqn:E2; [apply Z.eqb_eq in E2; lia|].
@@ -526,11 +528,11 @@ Proof.
   - apply dec_universal_prim; try reflexivity; try lia; assumption.
   - apply dec_universal_prim; try reflexivity; try lia; try assumption. destruct b; reflexivity.
   - apply dec_universal_prim; try reflexivity; try lia; try assumption.
-    change (dec_primitive 2 false (enc_int i)) with (Ok (A:=value) (VInt (dec_int (enc_int i)))).
+    change (dec_primitive_old 2 false (enc_int i)) with (Ok (A:=value) (VInt (dec_int (enc_int i)))).
     rewrite dec_int_enc_int. reflexivity.
   - apply dec_universal_prim; try reflexivity; try lia; assumption.
   - apply dec_universal_prim; try reflexivity; try lia; try assumption.
-    change (dec_primitive 12 false s) with (if utf8_valid s then Ok (VUtf8 s) else Err UnicodeErr).
+    change (dec_primitive_old 12 false s) with (if utf8_valid s then Ok (VUtf8 s) else Err UnicodeErr).
     match goal with H : utf8_valid _ = true |- _ => rewrite H end. reflexivity.
   - (* SEQUENCE *)
     cbn [dec]. rewrite parse_hdr_enc by (assumption || lia).
@@ -554,7 +556,7 @@ Proof.
     + apply length_concat_enc.
   - (* BIT STRING *)
     apply dec_universal_prim; try reflexivity; try lia; try assumption.
-    change (dec_primitive 3 false (u :: s)) with
+    change (dec_primitive_old 3 false (u :: s)) with
       (if 7 <? u then Err DecodeErr else if bits_ok u s then Ok (VBits u s) else Err EncodeErr).
     match goal with H : bits_ok _ _ = true |- _ => rewrite H; unfold bits_ok in H end.
     split_andb. to_props.
@@ -562,7 +564,7 @@ Proof.
   - apply dec_universal_prim; try reflexivity; try lia; assumption.
   - (* OID *)
     apply dec_universal_prim; try reflexivity; try lia; try assumption.
-    change (dec_primitive 6 false (enc_oid c)) with
+    change (dec_primitive_old 6 false (enc_oid c)) with
       (match dec_oid (enc_oid c) with Some c' => Ok (VOid c') | None => Err DecodeErr end).
     rewrite dec_oid_enc_oid by assumption. reflexivity.
   - (* tagged *)
@@ -697,13 +699,19 @@ Proof.
   - destruct c; [|congruence]. destruct (dec f content) as [[v' [|]]|]; try discriminate. congruence.
 Qed.
 
-Lemma dec_primitive_no_oof tag c content : dec_primitive tag c content <> Err OutOfFuel.
+Lemma dec_primitive_old_no_oof tag c content : dec_primitive_old tag c content <> Err OutOfFuel.
 Proof.
-  unfold dec_primitive.
+  unfold dec_primitive_old.
   repeat match goal with
          | |- context [if ?b then _ else _] => destruct b
          | |- context [match ?x with _ => _ end] => destruct x
          end; discriminate.
+Qed.
+
+Lemma dec_primitive_no_oof tag c content : dec_primitive tag c content <> Err OutOfFuel.
+Proof.
+  unfold dec_primitive. pose proof (dec_primitive_old_no_oof tag c content) as H.
+  destruct (dec_primitive_old tag c content) as [v|[]]; try discriminate. congruence.
 Qed.
 
 Lemma dec_items_no_oof f :
@@ -744,6 +752,56 @@ Proof.
   pose proof (dec_no_oof (S (length data)) data ltac:(lia)) as H.
   destruct (dec (S (length data)) data) as [[v [|]]|e]; try discriminate. congruence.
 Qed.
+
+(* ------------------------------------------------------------------------------------------- *)
+(* the only error class of the decoder is DecodeErr (ASN1DecodeError) *)
+
+Lemma dec_primitive_err tag c content e : dec_primitive tag c content = Err e -> e = DecodeErr.
+Proof.
+  unfold dec_primitive. pose proof (dec_primitive_old_no_oof tag c content) as Hn.
+  destruct (dec_primitive_old tag c content) as [v|[]]; intros H; inversion H; try reflexivity. congruence.
+Qed.
+
+Lemma dec_items_err f :
+  (forall d e, dec f d = Err e -> e = DecodeErr \/ e = OutOfFuel) ->
+  forall n data e, dec_items (dec f) n data = Err e -> e = DecodeErr \/ e = OutOfFuel.
+Proof.
+  intros Hdec. induction n as [|n IH]; intros data e H.
+  - destruct data; [discriminate|]. cbn in H. inversion H. right. reflexivity.
+  - destruct data as [|z data]; [discriminate|]. rewrite dec_items_step in H by discriminate.
+    destruct (dec f (z :: data)) as [[v rest]|e'] eqn:Hd.
+    + destruct (dec_items (dec f) n rest) eqn:Hi; [discriminate|]. inversion H; subst. eapply IH; eauto.
+    + inversion H; subst. eapply Hdec; eauto.
+Qed.
+
+Lemma dec_err : forall f data e, dec f data = Err e -> e = DecodeErr \/ e = OutOfFuel.
+Proof.
+  induction f as [|f IH]; intros data e H; [cbn in H; inversion H; right; reflexivity|]. cbn [dec] in H.
+  destruct (parse_hdr data) as [[[[[cls c] tag] content] rest]|]; [|inversion H; left; reflexivity].
+  destruct ((cls =? 0) && is_known_universal tag).
+  - destruct ((tag =? 16) || (tag =? 17)).
+    + destruct (negb c); [inversion H; left; reflexivity|].
+      destruct (dec_items (dec f) (length content) content) eqn:Hi; [discriminate|].
+      inversion H; subst. eapply dec_items_err; eauto.
+    + destruct (dec_primitive tag c content) eqn:Hp; [discriminate|]. inversion H; subst.
+      left. eapply dec_primitive_err; eauto.
+  - destruct c; [|discriminate].
+    destruct (dec f content) as [[v [|]]|e'] eqn:Hd; try discriminate.
+    + inversion H. left. reflexivity.
+    + inversion H; subst. eapply IH; eauto.
+Qed.
+
+Theorem der_decode_error_class data e : der_decode data = Err e -> e = DecodeErr.
+Proof.
+  intros H. pose proof (der_decode_total data) as Ht. unfold der_decode, der_decode_partial in *.
+  destruct (dec (S (length data)) data) as [[v [|]]|e'] eqn:Hd; try discriminate.
+  - inversion H. reflexivity.
+  - inversion H; subst. destruct (dec_err _ _ _ Hd) as [->| ->]; [reflexivity|congruence].
+Qed.
+
+Lemma old_error_classes :
+  dec_primitive_old 3 false [1; 1] = Err EncodeErr /\ dec_primitive_old 12 false [195; 40] = Err UnicodeErr.
+Proof. split; reflexivity. Qed.
 
 (* ------------------------------------------------------------------------------------------- *)
 (* where decode . encode is not the identity, and where the decoder is not canonical *)
